@@ -3,4 +3,5 @@ import Props.C03
 import Props.C15
 import Props.C16
 import Props.C17
+import Props.C18
 import Props.C19
